@@ -4,6 +4,9 @@
   function of Core.lean.
 -/
 import Wormhole.Inv.RegPrim
+import Wormhole.Inv.SyncLemmas
+
+set_option linter.unusedSimpArgs false
 
 namespace Wormhole
 namespace RSys
@@ -48,12 +51,12 @@ theorem ensureMailbox_spec {r : RSys} (h : r.RegInv) {ns : Ns} (hns : ns ∈ r.n
         simp only [List.mem_singleton] at hb
         subst hb
         have := h.mbBound a ha
-        simp only; omega
+        (try simp only); omega
       · intro k hk'
         obtain ⟨k0, hk0, rfl⟩ := List.mem_map.1 hk'
         have := h.nsBound k0 hk0
         show (if _ then _ else _ : Ns).oid < r.nextOid + 1
-        split <;> simp only <;> omega
+        split <;> (try simp only) <;> omega
       · intro k hk'
         show k.oid < r.nextOid + 1
         rcases List.mem_append.1 hk' with hk' | hk'
@@ -128,14 +131,14 @@ theorem ensureMailbox_spec {r : RSys} (h : r.RegInv) {ns : Ns} (hns : ns ∈ r.n
         · simp only [List.mem_singleton] at hk'; subst hk'
           obtain ⟨k, hk1, e1, _⟩ := h.heldObj x hx _ hm
           have := h.mbBound k hk1
-          simp only at e1; omega
+          (try simp only at e1); omega
       · intro x hx k hk' hm
         rcases List.mem_append.1 hk' with hk' | hk'
         · exact h.listenIff x hx k hk' hm
         · simp only [List.mem_singleton] at hk'; subst hk'
           obtain ⟨k, hk1, e1, _⟩ := h.heldObj x hx _ hm
           have := h.mbBound k hk1
-          simp only at e1; omega
+          (try simp only at e1); omega
       · intro k hk' c hc
         rcases List.mem_append.1 hk' with hk' | hk'
         · exact h.lisConn k hk' c hc
@@ -159,6 +162,482 @@ theorem ensureMailbox_spec {r : RSys} (h : r.RegInv) {ns : Ns} (hns : ns ∈ r.n
       rw [← e1, mbIdOf_eq h hk1]; rfl
     · refine ⟨{ ns with boxes := ns.boxes ++ [(mb, r.nextOid)] }, ?_, hreg, by simp⟩
       exact List.mem_map.2 ⟨ns, hns, by simp⟩
+
+end RSys
+end Wormhole
+
+namespace Wormhole
+namespace RSys
+
+theorem framed_open (mb side : String) (t : Time) : Framed (fun s => (s.mailboxOpen mb side t).commit) := by
+  intro s cs; simp
+
+/-- `AppNamespace.open_mailbox` on the registered namespace of `app` -/
+theorem openMailbox_spec {r : RSys} (h : r.RegInv) {app : String} {n : Nat} (hn : (app, n) ∈ r.apps)
+    (mb side : String) (t : Time) :
+    (r.openMailbox n mb side t).1.RegInv ∧
+    (r.openMailbox n mb side t).1.abs = (r.abs.openMailbox app mb side t).1 ∧
+    (r.openMailbox n mb side t).2.1 = (r.abs.openMailbox app mb side t).2 ∧
+    (r.openMailbox n mb side t).1.conns = r.conns ∧
+    (r.openMailbox n mb side t).1.apps = r.apps ∧
+    ((r.openMailbox n mb side t).2.1 = .ok →
+      (r.openMailbox n mb side t).1.Registered app mb (r.openMailbox n mb side t).2.2) := by
+  obtain ⟨ns, hns, e1, e2⟩ := h.appsNs _ hn
+  simp only at e1 e2
+  subst e2
+  have hf : r.findNs n = some ns := (findNs_eq_some h).2 ⟨hns, e1⟩
+  have hS : r.abs.addMailbox ns.app mb false t = (r.core.addMailbox ns.app mb false t).map (·.setConns r.aconns) := by
+    rw [abs_eq']; simp
+  unfold openMailbox Sys.openMailbox
+  rw [hf, hS]
+  dsimp only
+  cases r.core.addMailbox ns.app mb false t with
+  | none => exact ⟨h, rfl, rfl, rfl, rfl, by intro h; cases h⟩
+  | some c1 =>
+    simp only [Option.map_some]
+    obtain ⟨i1, i2, i3, i4, i5, i6⟩ :=
+      ensureMailbox_spec (r := { r with core := c1 }) (h.core c1) hns (by rw [← e1] at hn; exact hn) mb
+    generalize ({ r with core := c1 } : RSys).ensureMailbox ns mb = p at *
+    obtain ⟨k, hk, ek1, _, ek3⟩ := i6.obj i1
+    have hfm : p.1.findMb p.2 = some k := (findMb_eq_some i1).2 ⟨hk, ek1⟩
+    rw [hfm]
+    dsimp only
+    rw [ek3]
+    have habs : (p.1.onCore (fun s => (s.mailboxOpen mb side t).commit)).abs =
+        ((c1.setConns r.aconns).mailboxOpen mb side t).commit := by
+      rw [abs_onCore _ _ (framed_open mb side t), i2]
+      rfl
+    have hdb : (p.1.onCore (fun s => (s.mailboxOpen mb side t).commit)).core.db =
+        (((c1.setConns r.aconns).mailboxOpen mb side t).commit).db := by
+      rw [← habs]; rfl
+    have hinv := i1.onCore (fun s => (s.mailboxOpen mb side t).commit)
+    rw [hdb]
+    by_cases hc : ((((c1.setConns r.aconns).mailboxOpen mb side t).commit).db.mbSidesOf mb).length > 2
+    · simp only [hc, if_true]
+      exact ⟨hinv, habs, trivial, i3, i5, by intro h; cases h⟩
+    · simp only [hc, if_false]
+      exact ⟨hinv, habs, trivial, i3, i5, fun _ => i6⟩
+
+end RSys
+end Wormhole
+
+namespace Wormhole
+namespace RSys
+
+theorem framed_commit : Framed (fun s => s.commit) := by intro s cs; simp
+
+theorem claimCont_spec {r1 : RSys} (h : r1.RegInv) {app : String} {n : Nat} (hn : (app, n) ∈ r1.apps)
+    (npid : Nat) (mb side : String) (t : Time) :
+    (r1.claimCont n npid mb side t).1.RegInv ∧
+    (r1.claimCont n npid mb side t).1.abs = (Sys.claimCont r1.abs app npid mb side t).1 ∧
+    (r1.claimCont n npid mb side t).2 = (Sys.claimCont r1.abs app npid mb side t).2 ∧
+    (r1.claimCont n npid mb side t).1.conns = r1.conns ∧
+    (r1.claimCont n npid mb side t).1.apps = r1.apps := by
+  have h2 : (r1.onCore (·.commit)).RegInv := h.onCore _
+  have a2 : (r1.onCore (·.commit)).abs = r1.abs.commit := abs_onCore _ _ framed_commit
+  obtain ⟨j1, j2, j3, j4, j5, _⟩ := openMailbox_spec h2 (app := app) (n := n) hn mb side t
+  unfold claimCont Sys.claimCont
+  dsimp only
+  rw [a2] at j2 j3
+  rcases hq : (r1.onCore (·.commit)).openMailbox n mb side t with ⟨r3, res, o⟩
+  rcases hs : r1.abs.commit.openMailbox app mb side t with ⟨s3, res'⟩
+  rw [hq, hs] at j2 j3
+  rw [hq] at j1 j4 j5
+  simp only at j1 j2 j3 j4 j5
+  subst j2 j3
+  cases res
+  · dsimp only
+    have : r3.core.db = r3.abs.db := rfl
+    rw [this]
+    split
+    · exact ⟨j1, rfl, rfl, j4, j5⟩
+    · exact ⟨j1, rfl, rfl, j4, j5⟩
+  · exact ⟨j1, rfl, rfl, j4, j5⟩
+  · exact ⟨j1, rfl, rfl, j4, j5⟩
+
+theorem claimTail_spec {r : RSys} (h : r.RegInv) {app : String} {n : Nat} (hn : (app, n) ∈ r.apps)
+    (npid : Nat) (mb side : String) (t : Time) :
+    (r.claimTail n npid mb side t).1.RegInv ∧
+    (r.claimTail n npid mb side t).1.abs = (r.abs.claimTail app npid mb side t).1 ∧
+    (r.claimTail n npid mb side t).2 = (r.abs.claimTail app npid mb side t).2 ∧
+    (r.claimTail n npid mb side t).1.conns = r.conns ∧
+    (r.claimTail n npid mb side t).1.apps = r.apps := by
+  rw [Sys.claimTail_eq]
+  unfold claimTail
+  rw [abs_db]
+  cases r.core.db.findNpSide npid side with
+  | none =>
+    dsimp only
+    have a : (r.onCore (·.modDb (·.insNpSide ⟨npid, true, side, t⟩))).abs =
+        r.abs.modDb (·.insNpSide ⟨npid, true, side, t⟩) := abs_onCore _ _ (by intro s cs; rfl)
+    rw [← a]
+    exact claimCont_spec (h.onCore _) hn npid mb side t
+  | some row =>
+    dsimp only
+    split
+    · exact claimCont_spec h hn npid mb side t
+    · exact ⟨h, rfl, rfl, rfl, rfl⟩
+
+/-- `AppNamespace.claim_nameplate` on the registered namespace of `app` -/
+theorem claimNameplate_spec {r : RSys} (h : r.RegInv) {app : String} {n : Nat} (hn : (app, n) ∈ r.apps)
+    (name side : String) (t : Time) (fresh : String) :
+    (r.claimNameplate n name side t fresh).1.RegInv ∧
+    (r.claimNameplate n name side t fresh).1.abs = (r.abs.claimNameplate app name side t fresh).1 ∧
+    (r.claimNameplate n name side t fresh).2 = (r.abs.claimNameplate app name side t fresh).2 ∧
+    (r.claimNameplate n name side t fresh).1.conns = r.conns ∧
+    (r.claimNameplate n name side t fresh).1.apps = r.apps := by
+  obtain ⟨ns, hns, e1, e2⟩ := h.appsNs _ hn
+  simp only at e1 e2
+  subst e2
+  have hf : r.findNs n = some ns := (findNs_eq_some h).2 ⟨hns, e1⟩
+  have hS : r.abs.addMailbox ns.app fresh true t = (r.core.addMailbox ns.app fresh true t).map (·.setConns r.aconns) := by
+    rw [abs_eq']; simp
+  unfold claimNameplate Sys.claimNameplate
+  rw [hf, hS, abs_db]
+  dsimp only
+  cases r.core.db.findNameplate ns.app name with
+  | none =>
+    dsimp only
+    cases r.core.addMailbox ns.app fresh true t with
+    | none => exact ⟨h, rfl, rfl, rfl, rfl⟩
+    | some c1 =>
+      simp only [Option.map_some]
+      exact claimTail_spec (r := { r with core := c1.modDb (·.insNameplate ns.app name fresh) }) (h.core _) hn _ _ _ _
+  | some row => exact claimTail_spec h hn _ _ _ _
+
+end RSys
+end Wormhole
+
+namespace Wormhole
+namespace RSys
+
+/-- the listener dict of a registered object, in terms of the connection records:
+    the connections that are listening under the object's app with a handle on its mailbox id -/
+theorem RegInv.mem_listeners_iff {r : RSys} (h : r.RegInv) {k : MbObj} (hk : k ∈ r.mbs)
+    (hreg : r.Registered k.app k.mailboxId k.oid) {y : RConn} (hy : y ∈ r.conns) :
+    y.id ∈ k.listeners ↔
+      (y.listening = true ∧ y.app = some k.app ∧ (absConn r.mbs y).mailbox = some k.mailboxId) := by
+  constructor
+  · intro hc
+    obtain ⟨y', hy', e1, e2⟩ := h.lisConn k hk _ hc
+    have : y' = y := pw_eq (f := RConn.id) h.connIds hy' hy e1
+    subst this
+    refine ⟨(h.listenIff y' hy k hk e2).1 hc, h.heldMem hy hk e2, ?_⟩
+    rw [absConn_mailbox, e2]
+    exact mbIdOf_eq h hk
+  · rintro ⟨hl, ha, hm⟩
+    rw [absConn_mailbox] at hm
+    cases hmo : y.mailbox with
+    | none => rw [hmo] at hm; cases hm
+    | some o' =>
+      rw [hmo] at hm
+      obtain ⟨k', hk', e1, e2⟩ := h.heldObj y hy o' hmo
+      subst e1
+      simp only [Option.bind_some] at hm
+      rw [mbIdOf_eq h hk'] at hm
+      simp only [Option.some.injEq] at hm
+      rw [ha] at e2
+      simp only [Option.some.injEq] at e2
+      have hr := h.heldReg y hy k' hk' hmo hl
+      rw [← e2, hm] at hr
+      have : k'.oid = k.oid := Registered.unique h hr hreg
+      have : k' = k := pw_eq (f := MbObj.oid) h.mbOids hk' hk this
+      subst this
+      exact (h.listenIff y hy k' hk hmo).2 hl
+
+theorem foldl_stop (ls : List Nat) : ∀ (r : RSys),
+    ls.foldl (fun r c => r.stop .fixed c) r =
+      { r with conns := r.conns.map (fun y => if y.id ∈ ls then { y with mailbox := none, listening := false } else y) } := by
+  induction ls with
+  | nil => intro r; simp
+  | cons c rest ih =>
+    intro r
+    rw [List.foldl_cons, ih]
+    simp only [stop, Variant.fixed, Bool.false_eq_true, if_false, updConn, List.map_map]
+    congr 1
+    apply List.map_congr_left
+    intro y _
+    simp only [Function.comp, List.mem_cons]
+    by_cases e1 : y.id = c
+    · simp [e1]
+    · by_cases e2 : y.id ∈ rest <;> simp [e1, e2]
+
+/-- `Mailbox.close`, the registry part: stop callbacks, `_listeners = {}`, `free_mailbox` -/
+theorem shutObject_spec {r : RSys} (h : r.RegInv) {k : MbObj} (hk : k ∈ r.mbs)
+    (hreg : r.Registered k.app k.mailboxId k.oid) :
+    (r.shutObject .fixed k).RegInv ∧ (r.shutObject .fixed k).abs = r.abs.stopListeners k.app k.mailboxId ∧
+      (∀ y' ∈ (r.shutObject .fixed k).conns, y'.listening = true → ∃ y ∈ r.conns, y.id = y'.id ∧ y.listening = true) := by
+  have hku : ∀ k' ∈ r.mbs, k'.oid = k.oid → k' = k := fun k' hk' e => pw_eq (f := MbObj.oid) h.mbOids hk' hk e
+  have hyu : ∀ {c : Nat} {y y' : RConn}, y ∈ r.conns → y' ∈ r.conns → y.id = c → y'.id = c → y = y' :=
+    fun hy hy' e e' => pw_eq (f := RConn.id) h.connIds hy hy' (by rw [e, e'])
+  -- stage A: the records and the listener dict
+  let F : RConn → RConn := fun y => if y.id ∈ k.listeners then { y with mailbox := none, listening := false } else y
+  let G : MbObj → MbObj := fun k' => if k'.oid = k.oid then { k' with listeners := [] } else k'
+  let rA : RSys := { r with conns := r.conns.map F, mbs := r.mbs.map G }
+  have hA : rA.RegInv := by
+    refine h.relabel F G rfl rfl rfl rfl rfl ?_ ?_ ?_ ?_ ?_ ?_ ?_ ?_ ?_ ?_
+    · intro z; simp only [F]; split <;> rfl
+    · intro k'; simp only [G]; split <;> rfl
+    · intro k'; simp only [G]; split <;> rfl
+    · intro k'; simp only [G]; split <;> rfl
+    · intro k'; simp only [G]; split <;> rfl
+    · intro y hy o'
+      simp only [F]
+      split
+      · intro e; cases e
+      · exact h.heldObj y hy o'
+    · intro y hy k' hk'
+      simp only [F]
+      split
+      · intro e; cases e
+      · exact h.heldReg y hy k' hk'
+    · intro y hy k' hk'
+      simp only [F, G]
+      split
+      · intro e; cases e
+      · rename_i hn
+        intro e
+        have := h.listenIff y hy k' hk' e
+        split
+        · rename_i e0
+          have := hku k' hk' e0; subst this
+          simp only [List.not_mem_nil, false_iff]
+          intro hl
+          exact hn (this.2 hl)
+        · exact this
+    · intro k' hk' c hc
+      simp only [G] at hc
+      split at hc
+      · simp at hc
+      · rename_i e0
+        obtain ⟨y, hy, e1, e2⟩ := h.lisConn k' hk' c hc
+        refine ⟨y, hy, e1, ?_⟩
+        simp only [F]
+        split
+        · rename_i hin
+          obtain ⟨y2, hy2, e3, e4⟩ := h.lisConn k hk _ hin
+          have := hyu hy2 hy e3 rfl; subst this
+          rw [e2] at e4
+          simp only [Option.some.injEq] at e4
+          exact absurd e4 e0
+        · exact e2
+    · intro k' hk'
+      simp only [G]
+      split
+      · simp
+      · exact h.lisNodup k' hk'
+  have hkA : G k ∈ rA.mbs := List.mem_map.2 ⟨k, hk, rfl⟩
+  have hGk : G k = { k with listeners := [] } := by simp [G]
+  have hshut : r.shutObject .fixed k =
+      rA.updNs k.nsOid (fun n => { n with boxes := n.boxes.filter (fun p => ¬ p.1 = k.mailboxId) }) := by
+    unfold shutObject
+    rw [foldl_stop]
+    rfl
+  rw [hshut]
+  refine ⟨?_, ?_, ?_⟩
+  · -- stage B: `free_mailbox`
+    have hregA : rA.Registered k.app k.mailboxId k.oid := hreg
+    obtain ⟨ns1, hns1, hap1, hbx1⟩ := hregA
+    obtain ⟨k1, hk1, e11, e12, _, _⟩ := hA.boxesMb ns1 hns1 _ hbx1
+    have hk1' : k1 = G k := pw_eq (f := MbObj.oid) hA.mbOids hk1 hkA (by rw [e11, hGk])
+    have hns1oid : ns1.oid = k.nsOid := by rw [← e12, hk1', hGk]
+    have hnsu : ∀ n' ∈ r.nss, n'.oid = k.nsOid → n' = ns1 :=
+      fun n' hn' e => pw_eq (f := Ns.oid) hA.nsOids hn' hns1 (by rw [e, hns1oid])
+    let N : Ns → Ns := fun n => if n.oid = k.nsOid then { n with boxes := n.boxes.filter (fun p => ¬ p.1 = k.mailboxId) } else n
+    have hN1 : ∀ n, (N n).oid = n.oid := by intro n; simp only [N]; split <;> rfl
+    have hN2 : ∀ n, (N n).app = n.app := by intro n; simp only [N]; split <;> rfl
+    have hN3 : ∀ n, ∀ p ∈ (N n).boxes, p ∈ n.boxes := by
+      intro n p hp
+      simp only [N] at hp
+      split at hp
+      · exact (List.mem_filter.1 hp).1
+      · exact hp
+    refine ⟨hA.connIds, hA.appsKey, ?_, hA.mbOids, ?_, hA.mbBound, ?_, ?_, ?_, ?_, ?_, hA.heldObj, ?_, hA.listenIff,
+      hA.lisConn, hA.lisNodup⟩
+    · show List.Pairwise _ (List.map N _)
+      rw [List.pairwise_map]
+      simpa only [hN1] using hA.nsOids
+    · intro n hn
+      obtain ⟨n0, hn0, rfl⟩ := List.mem_map.1 hn
+      show (N n0).oid < _
+      rw [hN1]; exact hA.nsBound n0 hn0
+    · intro p hp
+      obtain ⟨n0, hn0, e1, e2⟩ := hA.appsNs p hp
+      exact ⟨N n0, List.mem_map.2 ⟨n0, hn0, rfl⟩, by rw [hN1]; exact e1, by rw [hN2]; exact e2⟩
+    · intro n hn
+      obtain ⟨n0, hn0, rfl⟩ := List.mem_map.1 hn
+      show List.Pairwise _ (N n0).boxes
+      simp only [N]
+      split
+      · exact List.Pairwise.filter _ (hA.boxesKey n0 hn0)
+      · exact hA.boxesKey n0 hn0
+    · intro n hn p hp
+      obtain ⟨n0, hn0, rfl⟩ := List.mem_map.1 hn
+      have := hA.boxesMb n0 hn0 p (hN3 n0 p hp)
+      show ∃ k ∈ rA.mbs, k.oid = p.2 ∧ k.nsOid = (N n0).oid ∧ k.app = (N n0).app ∧ k.mailboxId = p.1
+      rw [hN1, hN2]; exact this
+    · intro n hn hne
+      obtain ⟨n0, hn0, rfl⟩ := List.mem_map.1 hn
+      show ((N n0).app, (N n0).oid) ∈ rA.apps
+      rw [hN1, hN2]
+      apply hA.nsReg n0 hn0
+      intro e
+      apply hne
+      show (N n0).boxes = []
+      simp only [N]
+      split <;> simp [e]
+    · intro k' hk'
+      obtain ⟨n0, hn0, e1, e2⟩ := hA.mbNs k' hk'
+      exact ⟨N n0, List.mem_map.2 ⟨n0, hn0, rfl⟩, by rw [hN1]; exact e1, by rw [hN2]; exact e2⟩
+    · intro x hx k' hk' hm hl
+      obtain ⟨n0, hn0, ha0, hb0⟩ := hA.heldReg x hx k' hk' hm hl
+      refine ⟨N n0, List.mem_map.2 ⟨n0, hn0, rfl⟩, by rw [hN1]; exact ha0, ?_⟩
+      simp only [N]
+      split
+      · rename_i e0
+        have := hnsu n0 hn0 e0; subst this
+        refine List.mem_filter.2 ⟨hb0, ?_⟩
+        simp only [decide_not, Bool.not_eq_eq_eq_not, Bool.not_true, decide_eq_false_iff_not]
+        intro em
+        -- then k' is the closed object, which has no listening holder any more
+        have e3 := pw_eq (f := fun p : String × Nat => p.1) (hA.boxesKey n0 hn0) hb0 hbx1 em
+        simp only [Prod.mk.injEq] at e3
+        have : k' = G k := pw_eq (f := MbObj.oid) hA.mbOids hk' hkA (by rw [e3.2, hGk])
+        subst this
+        have := (hA.listenIff x hx (G k) hkA hm).2 hl
+        rw [hGk] at this
+        simp at this
+      · exact hb0
+  · -- `abs`
+    rw [abs_updNs, abs_eq', abs_eq']
+    unfold Sys.stopListeners
+    simp only [Sys.setConns_conns]
+    show r.core.setConns rA.aconns = _
+    have : rA.aconns = r.conns.map (fun y => absConn r.mbs (F y)) :=
+      aconns_relabel (r := r) (r' := rA) F G rfl rfl (by intro k'; simp only [G]; split <;> rfl)
+        (by intro k'; simp only [G]; split <;> rfl)
+    rw [this]
+    unfold Sys.setConns aconns
+    simp only [Sys.mk.injEq, true_and, and_true, List.map_map]
+    apply List.map_congr_left
+    intro y hy
+    simp only [Function.comp, F]
+    have key := h.mem_listeners_iff hk hreg hy
+    by_cases hin : y.id ∈ k.listeners
+    · have := key.1 hin
+      simp only [hin, if_true]
+      rw [if_pos (by simpa using this)]
+      unfold absConn; simp
+    · simp only [hin, if_false]
+      rw [if_neg]
+      intro hc
+      exact hin (key.2 (by simpa using hc))
+  · intro y' hy' hl
+    have hy'' : y' ∈ r.conns.map F := hy'
+    obtain ⟨y, hy, rfl⟩ := List.mem_map.1 hy''
+    refine ⟨y, hy, ?_, ?_⟩
+    · simp only [F]; split <;> rfl
+    · simp only [F] at hl
+      split at hl
+      · cases hl
+      · exact hl
+
+end RSys
+end Wormhole
+
+namespace Wormhole
+namespace RSys
+
+/-- what `mailboxClose_spec` says about the two results -/
+def CloseOK (r : RSys) (R : RSys × Bool) (S : Sys × Bool) : Prop :=
+  R.1.RegInv ∧ R.1.abs = S.1 ∧ R.2 = S.2 ∧
+    ∀ y' ∈ R.1.conns, y'.listening = true → ∃ y ∈ r.conns, y.id = y'.id ∧ y.listening = true
+
+/-- `Mailbox.close` on a REGISTERED Mailbox object -/
+theorem mailboxClose_spec {r : RSys} (h : r.RegInv) {k : MbObj} (hk : k ∈ r.mbs)
+    (hreg : r.Registered k.app k.mailboxId k.oid) (side : String) (mood : Option String) (t : Time) :
+    CloseOK r (r.mailboxClose .fixed k.oid side mood t) (r.abs.mailboxClose k.app k.mailboxId side mood t) := by
+  have hf : r.findMb k.oid = some k := (findMb_eq_some h).2 ⟨hk, rfl⟩
+  have keep : ∀ y' ∈ r.conns, y'.listening = true → ∃ y ∈ r.conns, y.id = y'.id ∧ y.listening = true :=
+    fun y' hy' hl => ⟨y', hy', rfl, hl⟩
+  unfold mailboxClose Sys.mailboxClose
+  rw [hf, abs_db]
+  dsimp only
+  cases hrow : r.core.db.findMailbox k.app k.mailboxId with
+  | none => exact ⟨h, rfl, rfl, keep⟩
+  | some row =>
+    dsimp only
+    cases r.core.db.findMbSide k.mailboxId side with
+    | none => exact ⟨h, rfl, rfl, keep⟩
+    | some _ =>
+      dsimp only
+      have a1 : (r.onCore (fun s => (s.modDb (·.closeSide k.mailboxId side mood)).commit)).abs =
+          (r.abs.modDb (·.closeSide k.mailboxId side mood)).commit := abs_onCore _ _ (by intro s cs; simp)
+      have h1 := h.onCore (fun s => (s.modDb (·.closeSide k.mailboxId side mood)).commit)
+      have hk1 : k ∈ (r.onCore (fun s => (s.modDb (·.closeSide k.mailboxId side mood)).commit)).mbs := hk
+      have hreg1 : (r.onCore (fun s => (s.modDb (·.closeSide k.mailboxId side mood)).commit)).Registered k.app
+          k.mailboxId k.oid := hreg
+      have hc1 : (r.onCore (fun s => (s.modDb (·.closeSide k.mailboxId side mood)).commit)).conns = r.conns := rfl
+      rw [← a1]
+      generalize r.onCore (fun s => (s.modDb (·.closeSide k.mailboxId side mood)).commit) = r1 at *
+      rw [abs_db]
+      by_cases hany : (r1.core.db.mbSidesOf k.mailboxId).any (·.opened) = true
+      · simp only [hany, if_true]
+        exact ⟨h1, rfl, rfl, by rw [hc1]; exact keep⟩
+      · simp only [hany]
+        obtain ⟨ns, hns, en1, en2⟩ := h1.mbNs k hk1
+        have hfn : r1.findNs k.nsOid = some ns := (findNs_eq_some h1).2 ⟨hns, en1⟩
+        rw [hfn]
+        simp only [Bool.false_eq_true, if_false, abs_cfg]
+        rw [en2]
+        let F4 : Sys → Sys := fun s2 =>
+          (if (s2.modDb fun d =>
+                ((((d.delNpSidesOfMailbox k.app k.mailboxId).delNameplatesOfMailbox k.app k.mailboxId).delMessagesOf
+                  k.mailboxId).delMbSidesOf k.mailboxId).delMailbox k.mailboxId).cfg.usage = true then
+              ((s2.modDb fun d =>
+                ((((d.delNpSidesOfMailbox k.app k.mailboxId).delNameplatesOfMailbox k.app k.mailboxId).delMessagesOf
+                  k.mailboxId).delMbSidesOf k.mailboxId).delMailbox k.mailboxId).storeMailboxUsage
+                  k.app row.forNp (r1.core.db.mbSidesOf k.mailboxId) t false).ucommit
+            else
+              s2.modDb fun d =>
+                ((((d.delNpSidesOfMailbox k.app k.mailboxId).delNameplatesOfMailbox k.app k.mailboxId).delMessagesOf
+                  k.mailboxId).delMbSidesOf k.mailboxId).delMailbox k.mailboxId).commit
+        have hF4 : Framed F4 := by
+          intro s cs
+          by_cases hu : s.cfg.usage = true
+          · simp only [F4]
+            rw [if_pos (show ((s.setConns cs).modDb _).cfg.usage = true from hu),
+              if_pos (show (s.modDb _).cfg.usage = true from hu)]
+            simp
+          · simp only [F4]
+            rw [if_neg (show ¬ ((s.setConns cs).modDb _).cfg.usage = true from hu),
+              if_neg (show ¬ (s.modDb _).cfg.usage = true from hu)]
+            simp
+        have tail : ∀ (c2 : Sys) (ok : Bool), r.CloseOK
+            (if (!ok) = true then (({ r1 with core := c2 } : RSys), false)
+              else (shutObject Variant.fixed (({ r1 with core := c2 } : RSys).onCore F4) k, true))
+            (if (!ok) = true then (c2.setConns r1.aconns, false)
+              else ((F4 (c2.setConns r1.aconns)).stopListeners k.app k.mailboxId, true)) := by
+          intro c2 ok
+          cases ok
+          · simp only [Bool.not_false, if_true]
+            exact ⟨h1.core c2, rfl, rfl, by rw [show ({ r1 with core := c2 } : RSys).conns = r.conns from hc1]; exact keep⟩
+          · simp only [Bool.not_true, Bool.false_eq_true, if_false]
+            obtain ⟨j1, j2, j3⟩ := shutObject_spec (r := ({ r1 with core := c2 } : RSys).onCore F4)
+              ((h1.core c2).onCore F4) hk1 hreg1
+            refine ⟨j1, ?_, rfl, ?_⟩
+            · refine j2.trans ?_
+              rw [abs_onCore _ _ hF4]
+              rfl
+            · intro y' hy' hl
+              obtain ⟨y, hy, e1, e2⟩ := j3 y' hy' hl
+              exact ⟨y, by rw [← hc1]; exact hy, e1, e2⟩
+        by_cases hu : r1.core.cfg.usage = true
+        · simp only [hu, if_true]
+          rw [abs_eq', Sys.storeNameplatesOfMailbox_setConns]
+          exact tail _ _
+        · simp only [hu, if_false]
+          exact tail r1.core true
 
 end RSys
 end Wormhole
